@@ -190,7 +190,16 @@ func RunSeq(sc *SeqScenario) *SeqResult {
 				}
 				continue
 			}
+			// a call during which the clock moves (slow visitor / user function):
+			// the second instance of a twin run must see the same clock schedule,
+			// so the clock is set back before its call (possible without timers)
+			rewind := len(insts) == 2 && (op.Adv > 0 || op.Vis == VisAdvance) && sim.BackgroundTasks() == 0
+			t0, tA := sim.Now(), int64(0)
 			for ii, in := range insts {
+				if rewind && ii == 1 {
+					tA = sim.Now()
+					sim.Advance(t0-tA, false, 0)
+				}
 				in.use()
 				if cacheFam {
 					measure := op.K == CDelete || op.K == CGetAndDelete || op.K == CDeleteExpired
@@ -205,6 +214,9 @@ func RunSeq(sc *SeqScenario) *SeqResult {
 				} else {
 					in.w.ExecMap(op, false)
 				}
+			}
+			if rewind && sim.Now() < tA {
+				sim.Advance(tA-sim.Now(), false, 0)
 			}
 		}
 	})
